@@ -200,7 +200,7 @@ func (c *CEnv) eval(e *CExpr) Val {
 		idx := c.eval(e.Args[1])
 		v := c.eval(e.Args[2])
 		vt := x.coerceTo(v, base.Seq.Elem)
-		return Val{T: Store(base.T, Add(base.Seq.Off, idx.T), vt), Ty: base.Ty, Seq: &SeqView{Off: base.Seq.Off, Len: base.Seq.Len, Elem: base.Seq.Elem}}
+		return Val{T: Store(base.T, IdxAdd(base.Seq.Off, idx.T), vt), Ty: base.Ty, Seq: &SeqView{Off: base.Seq.Off, Len: base.Seq.Len, Elem: base.Seq.Elem}}
 	case "quant":
 		return c.evalQuant(e)
 	case "lit":
@@ -343,7 +343,7 @@ func (c *CEnv) evalBin(e *CExpr) Val {
 			kt := mk(k.Name, SInt)
 			eq := And(Eq(a.Seq.Len, b.Seq.Len),
 				Forall([]BoundVar{k}, Implies(And(Le(IntLit(0), kt), Lt(kt, a.Seq.Len)),
-					Eq(Select(a.T, Add(a.Seq.Off, kt)), Select(b.T, Add(b.Seq.Off, kt))))))
+					Eq(Select(a.T, IdxAdd(a.Seq.Off, kt)), Select(b.T, IdxAdd(b.Seq.Off, kt))))))
 			if e.Op == "!=" {
 				eq = Not(eq)
 			}
@@ -573,13 +573,22 @@ func (c *CEnv) evalCall(e *CExpr) Val {
 		kt := mk(k.Name, SInt)
 		return Val{T: And(Eq(a.Seq.Len, b.Seq.Len),
 			Forall([]BoundVar{k}, Implies(And(Le(IntLit(0), kt), Lt(kt, a.Seq.Len)),
-				Eq(Select(a.T, Add(a.Seq.Off, kt)), Select(b.T, Add(b.Seq.Off, kt)))))), Ty: tyBool}
+				Eq(Select(a.T, IdxAdd(a.Seq.Off, kt)), Select(b.T, IdxAdd(b.Seq.Off, kt)))))), Ty: tyBool}
 	case "haskey":
 		need(2)
 		m := c.eval(e.Args[0])
 		k := c.eval(e.Args[1])
 		mt := m.Ty.Go.Underlying().(*types.Map)
 		return Val{T: x.mapHas(c.state(), m, k, mt), Ty: tyBool}
+	case "ptrcast":
+		// ptrcast(e, T): read an interface/opaque handle as a *T
+		need(2)
+		v := c.eval(e.Args[0])
+		if e.Args[1].Kind != "id" {
+			c.errf(e, "ptrcast: type name expected")
+		}
+		ty := c.cty(&CType{Kind: "named", Name: e.Args[1].Name})
+		return Val{T: v.T, Ty: &Ty{K: TPtr, Elem: ty}}
 	case "bit32":
 		need(1)
 		v := c.eval(e.Args[0])
